@@ -328,8 +328,20 @@ def run_property(prop, tier, seed, impl="py", only=None):
         if r["status"] == "fail":
             handle_failure(rep, prop, h, cname, lab, model, path, known, reproduced=True, rerun=rr, detail=r["detail"])
         elif h.idealised:
-            handle_failure(rep, prop, h, cname, lab, model, path, known, reproduced=False, rerun=rr,
-                           detail="native replay: " + r["status"])
+            # the verifier's counterexample lives in the idealised domain (reals for floats, uninterpreted
+            # functions): look for a concrete failing input natively before reporting without one
+            case_json = json.dumps({k: list(v) for k, v in case.items()})
+            found = native_call(["sample", h.id, str(T["standin"]), str(seed), case_json])
+            if found.get("fails"):
+                f = found["fails"][0]
+                p2 = write_replay(prop, h.id, cname, lab + "|native-search", f["inputs"],
+                                  {"note": "obligation refuted by the solver; its model does not replay, this failing "
+                                           "input was found by native search", "solver_model": model}, h.idealised)
+                handle_failure(rep, prop, h, cname, lab, f["inputs"], p2, known, reproduced=True, rerun=rr,
+                               detail=f["detail"])
+            else:
+                handle_failure(rep, prop, h, cname, lab, model, path, known, reproduced=False, rerun=rr,
+                               detail="native replay: " + r["status"])
         else:
             rep.errors.append("%s: obligation '%s' refuted by the solver but the counterexample %s does not fail "
                               "natively (%s) - engine error, not a violation" % (tag, lab, json.dumps(model), r["status"]))
